@@ -88,3 +88,24 @@ package linear
 // partition [y0, y1).
 //@ lemma [C10,C11,C15] rows-covered mode=real (y0 mathint, y mathint, n mathint): n >= 1 && y0 <= y ==> 0 <= (y - y0) % n && (y - y0) % n < n && (y - y0) / n >= 0 && y == y0 + (y - y0) % n + ((y - y0) / n) * n
 //@ lemma [C10,C11,C15] rows-disjoint mode=real (y0 mathint, n mathint, w1 mathint, k1 mathint, w2 mathint, k2 mathint): n >= 1 && 0 <= w1 && w1 < n && 0 <= w2 && w2 < n && k1 >= 0 && k2 >= 0 && y0 + w1 + k1*n == y0 + w2 + k2*n ==> w1 == w2 && k1 == k2
+
+// ---- dispatch level (generated by /verif/tools/gen_dispatch_contracts.py) ----
+// TransformImageColor as a whole, per scenario of dynamic types. The obligations are the preconditions of the worker
+// closure at its RunWorkers call (dstOffset == dst.Min - src.Min, bounds == the source's, destination at least as
+// large) for every 0 <= workerNum < workerCount; they tie the offsets computed here to what the step contracts assume.
+
+//@ func TransformImageColor
+//@   scenario rgba64-from-rgba64 rgba64-from-any rgba-from-any
+//@   dyn rgba64-from-rgba64 dst *image.RGBA64
+//@   dyn rgba64-from-rgba64 src *image.RGBA64
+//@   dyn rgba64-from-any dst *image.RGBA64
+//@   dyn rgba-from-any dst *image.RGBA
+//@   requires case=rgba64-from-rgba64 sane-coordinates: -0x40000000 <= dyn(src).Rect.Min.X && dyn(src).Rect.Min.X <= dyn(src).Rect.Max.X && dyn(src).Rect.Max.X <= 0x40000000 && -0x40000000 <= dyn(src).Rect.Min.Y && dyn(src).Rect.Min.Y <= dyn(src).Rect.Max.Y && dyn(src).Rect.Max.Y <= 0x40000000 && -0x40000000 <= dyn(dst).Rect.Min.X && dyn(dst).Rect.Min.X <= dyn(dst).Rect.Max.X && dyn(dst).Rect.Max.X <= 0x40000000 && -0x40000000 <= dyn(dst).Rect.Min.Y && dyn(dst).Rect.Min.Y <= dyn(dst).Rect.Max.Y && dyn(dst).Rect.Max.Y <= 0x40000000
+//@   requires case=rgba64-from-rgba64 destination-at-least-as-large: dyn(src).Rect.Max.X - dyn(src).Rect.Min.X <= dyn(dst).Rect.Max.X - dyn(dst).Rect.Min.X && dyn(src).Rect.Max.Y - dyn(src).Rect.Min.Y <= dyn(dst).Rect.Max.Y - dyn(dst).Rect.Min.Y
+//@   requires case=rgba64-from-any sane-coordinates: -0x40000000 <= src.Bounds().Min.X && src.Bounds().Min.X <= src.Bounds().Max.X && src.Bounds().Max.X <= 0x40000000 && -0x40000000 <= src.Bounds().Min.Y && src.Bounds().Min.Y <= src.Bounds().Max.Y && src.Bounds().Max.Y <= 0x40000000 && -0x40000000 <= dyn(dst).Rect.Min.X && dyn(dst).Rect.Min.X <= dyn(dst).Rect.Max.X && dyn(dst).Rect.Max.X <= 0x40000000 && -0x40000000 <= dyn(dst).Rect.Min.Y && dyn(dst).Rect.Min.Y <= dyn(dst).Rect.Max.Y && dyn(dst).Rect.Max.Y <= 0x40000000
+//@   requires case=rgba64-from-any destination-at-least-as-large: src.Bounds().Max.X - src.Bounds().Min.X <= dyn(dst).Rect.Max.X - dyn(dst).Rect.Min.X && src.Bounds().Max.Y - src.Bounds().Min.Y <= dyn(dst).Rect.Max.Y - dyn(dst).Rect.Min.Y
+//@   requires case=rgba-from-any sane-coordinates: -0x40000000 <= src.Bounds().Min.X && src.Bounds().Min.X <= src.Bounds().Max.X && src.Bounds().Max.X <= 0x40000000 && -0x40000000 <= src.Bounds().Min.Y && src.Bounds().Min.Y <= src.Bounds().Max.Y && src.Bounds().Max.Y <= 0x40000000 && -0x40000000 <= dyn(dst).Rect.Min.X && dyn(dst).Rect.Min.X <= dyn(dst).Rect.Max.X && dyn(dst).Rect.Max.X <= 0x40000000 && -0x40000000 <= dyn(dst).Rect.Min.Y && dyn(dst).Rect.Min.Y <= dyn(dst).Rect.Max.Y && dyn(dst).Rect.Max.Y <= 0x40000000
+//@   requires case=rgba-from-any destination-at-least-as-large: src.Bounds().Max.X - src.Bounds().Min.X <= dyn(dst).Rect.Max.X - dyn(dst).Rect.Min.X && src.Bounds().Max.Y - src.Bounds().Min.Y <= dyn(dst).Rect.Max.Y - dyn(dst).Rect.Min.Y
+//@   ensures [C10] returns: true
+
+// ---- end of dispatch level ----
